@@ -202,7 +202,13 @@ theorem tval_of_realRec (F : RealFns K) (hF : FnsSpec F) (e : AExpr) :
               · cases p with
                 | int k =>
                   simp only at h
-                  rw [intExp_int b k hp, ha]
+                  have hbk : tval F b = (k : K) := by rw [hb]; simp
+                  have hex : ∃ p : Int, tval F b = (p : K) := ⟨k, hbk⟩
+                  rw [dif_pos hex]
+                  have hch : Classical.choose hex = k := by
+                    have hs := Classical.choose_spec hex
+                    exact (Int.cast_injective (hs.symm.trans hbk))
+                  rw [hch, ha]
                   split at h
                   · rename_i hk
                     cases h
